@@ -151,8 +151,12 @@ def rule_tok(S):
         claimed, tok, exhausted = st
         if blk.term and 'cond' in blk.term and len(blk.succ) == 2:
             c = f.strip(blk.term['cond'], casts=True)
+            neg = False
+            while c is not None and c['k'] == 'UnaryOperator' and c.get('op') == '!':
+                neg = not neg
+                c = f.strip(f.ch(c)[0], casts=True)
             if c is not None and is_call(c, cq=TI + '::gain_the_right'):
-                if idx == 0:
+                if (idx == 0) != neg:
                     return (root_var(f, call_recv(f, c)), tok, exhausted)
                 return (None, tok, exhausted)
             if blk.term.get('k') == 'CXXForRangeStmt':
